@@ -15,7 +15,12 @@ pub fn drive(vectors: &str, out: &str, thorough: bool, seed: u64) {
   let scratch = format!("/var/tmp/agv-c15-{}", std::process::id());
   let recs = cli::par_map(&cases, 12, |_, (i, v)| {
     let p = Project::new(&format!("{scratch}/p{i}"));
-    let extra = if v["lglob"] == true { Some(json!({"languageGlobs": {"javascript": ["*.mjsx"]}})) } else { None };
+    let extra = match v["lglob"].as_str().unwrap_or("none") {
+      "extra" => Some(json!({"languageGlobs": {"javascript": ["*.mjsx"]}})),
+      // an extension that a built-in language (Python) owns is claimed for JavaScript
+      "override" => Some(json!({"languageGlobs": {"javascript": ["*.py"]}})),
+      _ => None,
+    };
     p.config(extra.as_ref());
     for r in v["rules"].as_array().unwrap() {
       let mut rule = json!({"id": r["id"], "language": r["lang"], "severity": r["sev"], "message": "m", "rule": {"pattern": "foo($A)"}});
